@@ -2,7 +2,7 @@
 import json, os
 
 from . import extract
-from .rules import lock7, seq, mutex, ptr, lockword, qsbr, enc
+from .rules import lock7, seq, mutex, ptr, lockword, qsbr, enc, exc
 from . import olcrules
 
 VERIF = os.path.dirname(os.path.dirname(os.path.abspath(__file__)))
@@ -210,6 +210,19 @@ PROPERTIES['C15'] = {
                    'ENC-3 every NaN, whatever its sign or payload, is mapped to one code (NaN unification), -0 and +0 stay distinct (different classes).',
     'decides': 'fixed widths, text normalisation order and framing, NaN unification',
     'does_not_decide': 'the combinatorial argument that body.0x00.len is prefix-free across different bodies (needs the no-interior-zero precondition)',
+}
+
+PROPERTIES['C08'] = {
+    'level': 'other',
+    'configs': lambda tier: [B, D, extract.flip(B, 'nostats')] if tier == 'quick' else extract.all_configs(),
+    'rules': [R(exc.exc1), R(exc.exc2), olc('LOCK-4'), R(mutex.mx1)],
+    'explanation': 'Strong exception guarantee as a commit-point property, decided on every path instead of at the ~20 hand-counted injection points of the test suite: '
+                   'EXC-1 a path-sensitive dataflow (worlds carrying "an effect has been committed" plus nullness/optional facts, so the descent and retry loops are resolved through the return classes of their helpers; callee summaries bottom-up; allocation capability from the whole-program call graph including libstdc++ bodies) '
+                   'over insert/remove of db, mutex_db and olc_db for both key kinds, QSBR resume, thread start and deferred-deallocation requests shows that no allocation-capable call and no throw follows the first committed effect (store into the tree, statistics update, obsoletion, QSBR state change); writes to fresh, unpublished nodes and lock acquisition are not effects; '
+                   'EXC-2 accounting increments happen only in the two factories after the allocation and are rolled back by the deleter of the returned unique_ptr; EXC-3 length limits are thrown before anything is allocated; LOCK-4 / MX-1 locks are scope-bound, so an exception releases them.',
+    'decides': 'commit-point discipline of every operation; compensated accounting; limits-before-allocation; no lock outlives an exception',
+    'does_not_decide': '"repeating the operation then succeeds" as behaviour (follows from unchanged state + C01); allocation failures inside deferred deallocation with more than one registered thread (outside the property\'s scope, listed as pruned in the evidence)',
+    'assumptions': ['tree operations run with a single registered QSBR thread (C08 as stated): qsbr_per_thread::on_next_epoch_deallocate is treated as non-allocating when reached from a tree operation; it is analysed unpruned as an entry point of its own'],
 }
 
 NOT_APPLICABLE = {}
